@@ -10,12 +10,14 @@ rounding, finding F13).  `Mon.calls m cs` = the calls `cs` applied in order to t
 in Props/C20Heap.lean about the heap model Model/MonitorHeap.lean (monitor objects = pointers to list cells),
 which refines this functional model (`Heap.view`).  Tuple indices, CustomMonitor, `all=False`, the verbose
 intervals and the measure views are in Props/C20Views.lean; non-rectangular trajectories, id tuples and
-iteration numbers with gaps in Props/C20Files.lean.
+iteration numbers with gaps in Props/C20Files.lean; the ids of a trajectory through the three parameter files and
+the matching readers (`read_support_file`, `read_converge_file`) in Props/C20Ids.lean.
 -/
 import MysticVerif.Proofs.Monitor
 import MysticVerif.Props.C20Views
 import MysticVerif.Props.C20Heap
 import MysticVerif.Props.C20Files
+import MysticVerif.Props.C20Ids
 import Mathlib.Tactic.FieldSimp
 import Mathlib.Tactic.Ring
 import Mathlib.Tactic.NormNum
